@@ -3,8 +3,8 @@
 use crate::architecture::Endian;
 use crate::il::*;
 use crate::translator::{
-    unhandled_intrinsic, BlockTranslationResult, Options, Translator,
-    DEFAULT_TRANSLATION_BLOCK_BYTES,
+    ensure_block_in_address_space, unhandled_intrinsic, BlockTranslationResult, Options,
+    Translator, DEFAULT_TRANSLATION_BLOCK_BYTES,
 };
 use crate::Error;
 use falcon_capstone::capstone;
@@ -130,6 +130,8 @@ fn translate_block(
     endian: Endian,
     options: &Options,
 ) -> Result<BlockTranslationResult, Error> {
+    ensure_block_in_address_space(address, bytes.len())?;
+
     let mode = match endian {
         Endian::Big => capstone::CS_MODE_32 | capstone::CS_MODE_BIG_ENDIAN,
         Endian::Little => capstone::CS_MODE_32 | capstone::CS_MODE_LITTLE_ENDIAN,
